@@ -42,7 +42,7 @@ def model_strategy(draw, quick):
   root = ET.fromstring(gm.xml)
   labels = set(gm.info['labels'])
   if 'gravcomp' in labels:
-    for j in root.iter('joint'):
+    for j in root.find('worldbody').iter('joint'):
       if j.get('type') != 'free' and draw(st.integers(0, 4)) == 0:
         j.set('actuatorgravcomp', 'true')
         labels.add('actuatorgravcomp')
